@@ -245,10 +245,206 @@ Theorem renderer_api_invariant_lemma origin id flags ms ops res r :
   12 <= zlen (out r) <= Z.max 12 ms /\
   cq r + can r + cau r + cad r = accepted origin id ops (mkRst (repeat 0 12) [] 0 0 0 0 0 flags ms 0 false) /\
   Forall (fun kv => snd kv < zlen (out r)) (tbl r) /\
-  TableSound (out r) (tbl r).
+  TableSound (out r) (tbl r) /\
+  (maxsz r + reserved r = ms /\ 0 <= reserved r).
 Proof.
   intros H. destruct (api_invariant_lemma origin id ms ops _ _ _ _ (AInv_init flags ms) H) as ((I1 & I2 & I3 & I4 & I5 & I6) & C).
   split; [lia|]. split; [unfold counts_sum in C; cbn [cq can cau cad] in C; lia|]. split; [exact I3|].
+  split; [|split; [exact I4|exact I5]].
   specialize (I6 (firstn 12 (out r))). rewrite firstn_skipn in I6. apply I6.
   rewrite firstn_length. unfold zlen in I1. lia.
+Qed.
+
+(* ======================================================================= *)
+(*  EDNS options: what the reader returns is in the form the option classes render          *)
+(* ======================================================================= *)
+Definition octets (l : list Z) : Prop := Forall (fun b => 0 <= b < 256) l.
+
+Lemma rstrip0_idem l : rstrip0 (rstrip0 l) = rstrip0 l.
+Proof.
+  induction l as [|a l IH]; [reflexivity|].
+  change (rstrip0 (a :: l)) with (match rstrip0 l with [] => if a =? 0 then [] else [a] | r' => a :: r' end).
+  destruct (rstrip0 l) as [|z l0] eqn:E.
+  - destruct (a =? 0) eqn:Ea; [reflexivity|]. cbn. rewrite Ea. reflexivity.
+  - change (rstrip0 (a :: z :: l0)) with (match rstrip0 (z :: l0) with [] => if a =? 0 then [] else [a] | r' => a :: r' end).
+    rewrite IH. reflexivity.
+Qed.
+
+Lemma removelast_snoc {A} (l : list A) x : removelast (l ++ [x]) = l.
+Proof. rewrite removelast_app by discriminate. cbn. apply app_nil_r. Qed.
+
+Lemma ecs_mask_idem src p : ecs_mask src (ecs_mask src p) = ecs_mask src p.
+Proof.
+  unfold ecs_mask. cbv zeta. destruct (src mod 8 =? 0) eqn:E; [reflexivity|].
+  rewrite removelast_snoc, last_last. f_equal. f_equal.
+  rewrite <- Z.land_assoc, Z.land_diag. reflexivity.
+Qed.
+
+Lemma ecs_mask_len src p : 0 <= src -> zlen p = (src + 7) / 8 -> zlen (ecs_mask src p) = zlen p.
+Proof.
+  intros H0 HL. unfold ecs_mask. cbv zeta. destruct (src mod 8 =? 0) eqn:E; [reflexivity|].
+  apply Z.eqb_neq in E.
+  destruct p as [|x p]; [exfalso|].
+  { unfold zlen in HL. cbn in HL. assert (1 <= src) by (destruct (Z.eq_dec src 0); [subst; cbn in E; lia|lia]).
+    assert (1 <= (src + 7) / 8) by (apply Z.div_le_lower_bound; lia). lia. }
+  unfold zlen. rewrite app_length. cbn [length].
+  assert (L : (length (removelast (x :: p)) = length p)%nat).
+  { clear. revert x. induction p as [|y p IH]; intros x; [reflexivity|].
+    change (removelast (x :: y :: p)) with (x :: removelast (y :: p)). cbn [length]. rewrite IH. reflexivity. }
+  rewrite L. lia.
+Qed.
+
+(* an option the reader accepted is accepted again, unchanged, when its octets come back *)
+Lemma opt_dec_idem code d d' : octets d -> opt_dec code d = Ok d' -> opt_dec code d' = Ok d'.
+Proof.
+  intros OC. unfold opt_dec.
+  destruct (code =? 3); [intros H; injection H as <-; reflexivity|].
+  destruct (code =? 10).
+  { destruct ((zlen d =? 8) || ((16 <=? zlen d) && (zlen d <=? 40))) eqn:C; [|discriminate].
+    intros H; injection H as <-. rewrite C. reflexivity. }
+  destruct ((22 <=? code) && (code <=? 25)).
+  { destruct (utf8_ok d) eqn:C; [|discriminate]. intros H; injection H as <-. rewrite C. reflexivity. }
+  destruct (code =? 15).
+  { destruct d as [|a [|b text]]; try discriminate.
+    destruct (utf8_ok (rstrip0 text)) eqn:C; [|discriminate]. intros H; injection H as <-.
+    rewrite rstrip0_idem, C. reflexivity. }
+  destruct (code =? 8).
+  { destruct d as [|f1 [|f2 [|src [|scope prefix]]]]; try discriminate.
+    destruct (negb ((f1 * 256 + f2 =? 1) || (f1 * 256 + f2 =? 2))) eqn:C1; [discriminate|].
+    destruct (negb (zlen prefix =? (src + 7) / 8)) eqn:C2; [discriminate|].
+    destruct ((((if f1 * 256 + f2 =? 1 then 32 else 128) <? src) || ((if f1 * 256 + f2 =? 1 then 32 else 128) <? scope))) eqn:C3; [discriminate|].
+    intros H; injection H as <-. rewrite C1.
+    assert (0 <= src).
+    { inversion OC as [|? ? _ O1]; subst. inversion O1 as [|? ? _ O2]; subst. inversion O2 as [|? ? Hs _]; subst. lia. }
+    apply Bool.negb_false_iff in C2. apply Z.eqb_eq in C2.
+    rewrite (ecs_mask_len src prefix H C2). rewrite C2, Z.eqb_refl. cbn [negb]. rewrite C3, ecs_mask_idem. reflexivity. }
+  destruct (code =? 18); [discriminate|].
+  intros H; injection H as <-. reflexivity.
+Qed.
+
+Lemma In_firstn_in {A} (x : A) : forall n l, In x (firstn n l) -> In x l.
+Proof. induction n as [|n IH]; intros [|y l] H; cbn in H; try contradiction. destruct H as [->|H]; [left; reflexivity|right; exact (IH l H)]. Qed.
+Lemma In_skipn_in {A} (x : A) : forall n l, In x (skipn n l) -> In x l.
+Proof. induction n as [|n IH]; intros [|y l] H; cbn in H; try contradiction; try exact H. right. exact (IH l H). Qed.
+
+Lemma octets_rd_bytes wire endp cur n b : octets wire -> rd_bytes wire endp cur n = Ok b -> octets b.
+Proof.
+  intros OW. unfold rd_bytes. destruct (Nat.ltb (endp - cur) n); [discriminate|]. intros H; injection H as <-.
+  unfold octets in *. rewrite Forall_forall in *. intros x Hx. apply OW.
+  apply (In_skipn_in x cur). apply (In_firstn_in x n). exact Hx.
+Qed.
+
+(* a name the reader returns is absolute (it ends where the root label was read) and valid *)
+Lemma nm_lab_abs wire endp jump biggest :
+  (forall c f a r, jump c f a = Ok r -> is_absolute (fst r) = true) ->
+  forall fl cur fur acc r, nm_lab wire endp jump biggest fl cur fur acc = Ok r -> is_absolute (fst r) = true.
+Proof.
+  intros HJ. induction fl as [|fl IH]; intros cur fur acc r H; [discriminate|].
+  cbn [nm_lab] in H. destruct (rd_u8 wire endp cur) as [count| |]; try discriminate.
+  destruct (count =? 0).
+  { injection H as <-. cbn [fst rev]. apply is_absolute_app_last. }
+  destruct (count <? 64).
+  { destruct (rd_bytes wire endp (cur + 1) (Z.to_nat count)) as [l| |]; try discriminate. exact (IH _ _ _ _ H). }
+  destruct (192 <=? count); [|discriminate].
+  destruct (rd_u8 wire endp (cur + 1)) as [lo| |]; try discriminate.
+  destruct (Nat.leb _ _); [discriminate|]. destruct (Nat.ltb _ _); [discriminate|]. exact (HJ _ _ _ _ H).
+Qed.
+
+Lemma nm_ptr_abs wire endp : forall fp cur fur biggest acc r,
+  nm_ptr wire endp fp cur fur biggest acc = Ok r -> is_absolute (fst r) = true.
+Proof.
+  induction fp as [|fp IH]; intros cur fur biggest acc r H; [discriminate|].
+  cbn [nm_ptr] in H. refine (nm_lab_abs wire endp _ biggest _ _ _ _ _ _ H).
+  intros c f a r' HJ. exact (IH _ _ _ _ _ HJ).
+Qed.
+
+Lemma nm_from_wire_ok wire endp start nc : nm_from_wire wire endp start = Ok nc -> name_ok (fst nc).
+Proof.
+  unfold nm_from_wire. destruct (Nat.ltb endp start); [discriminate|].
+  destruct (nm_ptr wire endp (S start) start start start []) as [[labels fur]| |] eqn:E; try discriminate.
+  intros H. apply bind_ok in H. destruct H as (n & M & H). injection H as <-. cbn [fst].
+  apply mk_name_ok in M. destruct M as (-> & V). split; [exact V|].
+  exact (nm_ptr_abs _ _ _ _ _ _ _ _ E).
+Qed.
+
+Lemma opts_loop_fixed wire : octets wire -> forall fuel endp cur acc os,
+  opts_ok acc -> opts_loop wire fuel endp cur acc = Ok os -> opts_ok os.
+Proof.
+  intros OW. induction fuel as [|f IH]; intros endp cur acc os OA H; [discriminate|].
+  cbn [opts_loop] in H. destruct (Nat.leb endp cur).
+  { injection H as <-. unfold opts_ok in *. apply Forall_rev. exact OA. }
+  apply bind_ok in H. destruct H as (otype & _ & H). apply bind_ok in H. destruct H as (olen & _ & H).
+  apply bind_ok in H. destruct H as (data & ED & H). apply bind_ok in H. destruct H as (d & EO & H).
+  refine (IH _ _ _ _ (Forall_cons (otype, d) _ OA) H).
+  unfold opt_wf. cbn [fst snd]. destruct (otype =? 18).
+  - apply bind_ok in EO. destruct EO as (nc & EN & EO). destruct (Nat.eqb _ _); [|discriminate].
+    injection EO as <-. exists (fst nc). split; [exact (nm_from_wire_ok _ _ _ _ EN)|reflexivity].
+  - exact (opt_dec_idem otype data d (octets_rd_bytes _ _ _ _ _ OW ED) EO).
+Qed.
+
+Definition OptInv (m : msg) : Prop :=
+  match mopt m with Some oo => opts_ok (oopts oo) | None => True end.
+
+Lemma get_question_optinv wire origin iu : forall k cur m r,
+  OptInv m -> get_question wire origin iu k cur m = Ok r -> OptInv (snd r).
+Proof.
+  induction k as [|k IH]; intros cur m r OI H.
+  - injection H as <-. exact OI.
+  - cbn [get_question] in H. apply bind_ok in H. destruct H as (nc & _ & H).
+    apply bind_ok in H. destruct H as (ty & _ & H). apply bind_ok in H. destruct H as (cl & _ & H).
+    apply bind_ok in H. destruct H as ([[[c' t'] dl] em] & _ & H).
+    refine (IH _ _ _ _ H). exact OI.
+Qed.
+
+Lemma get_rr_optinv wire origin po iu section count i cur fu m r :
+  octets wire -> OptInv m -> get_rr wire origin po iu section count i cur fu m = Ok r -> OptInv (snd r).
+Proof.
+  intros OW OI H. unfold get_rr in H.
+  apply bind_ok in H. destruct H as ([[[[[[an n] c1] ty] cl] ttl] rdlen] & _ & H).
+  apply bind_ok in H. destruct H as ([[[c' t'] dl] em] & _ & H).
+  destruct em.
+  { destruct (rdlen >? 0); [discriminate|]. injection H as <-. exact OI. }
+  destruct (Nat.ltb _ _); [discriminate|].
+  destruct (t' =? tOPT).
+  { apply bind_ok in H. destruct H as (os & EO & H). injection H as <-.
+    unfold OptInv. cbn [snd set_opt mopt oopts]. apply (opts_loop_fixed wire OW _ _ _ _ _ (Forall_nil _) EO). }
+  apply bind_ok in H. destruct H as (rd & _ & H).
+  destruct (t' =? tTSIG).
+  { destruct (negb (ttl =? 0)); [discriminate|]. destruct (negb (p_keyring_false po)); [discriminate|].
+    injection H as <-. exact OI. }
+  injection H as <-. exact OI.
+Qed.
+
+Lemma get_section_optinv wire origin po iu section count : octets wire -> forall k i cur fu m r,
+  OptInv m -> get_section wire origin po iu section count i k cur fu m = Ok r -> OptInv (snd r).
+Proof.
+  intros OW. induction k as [|k IH]; intros i cur fu m r OI H.
+  - injection H as <-. exact OI.
+  - cbn [get_section] in H. apply bind_ok in H. destruct H as ([[c2 f2] m2] & E & H).
+    apply (IH _ _ _ _ _ (get_rr_optinv _ _ _ _ _ _ _ _ _ _ _ OW OI E) H).
+Qed.
+
+(* every message the reader returns carries its EDNS options in the octets their classes render: the options
+   hypothesis of render_parse (opts_ok) holds for parsed messages, for every wire and every reader option *)
+Lemma parsed_options_wf_lemma wire origin po m :
+  octets wire -> from_wire wire origin po = Ok m -> OptInv m.
+Proof.
+  intros OW H. unfold from_wire in H. destruct (Nat.ltb (length wire) 12); [discriminate|].
+  apply bind_ok in H. destruct H as (id & _ & H). apply bind_ok in H. destruct H as (flags & _ & H).
+  apply bind_ok in H. destruct H as (qc & _ & H). apply bind_ok in H. destruct H as (anc & _ & H).
+  apply bind_ok in H. destruct H as (auc & _ & H). apply bind_ok in H. destruct H as (adc & _ & H).
+  cbv zeta in H.
+  match type of H with (match ?b with _ => _ end) = _ => destruct b as [mb|e|e] eqn:EB end.
+  2: { destruct (_ && _ && _); discriminate. }
+  2: discriminate.
+  destruct (_ && _); [discriminate|]. injection H as <-.
+  apply bind_ok in EB. destruct EB as (q & EQ & EB).
+  assert (OQ : OptInv (snd q)) by (refine (get_question_optinv _ _ _ _ _ _ _ _ EQ); exact Logic.I).
+  destruct (p_question_only po); [injection EB as <-; exact OQ|].
+  apply bind_ok in EB. destruct EB as (a & EA & EB). apply bind_ok in EB. destruct EB as (b & EBB & EB).
+  apply bind_ok in EB. destruct EB as (c & EC & EB).
+  destruct (_ && _); [discriminate|]. injection EB as <-.
+  pose proof (get_section_optinv _ _ _ _ _ _ OW _ _ _ _ _ _ OQ EA) as OA.
+  pose proof (get_section_optinv _ _ _ _ _ _ OW _ _ _ _ _ _ OA EBB) as OB.
+  exact (get_section_optinv _ _ _ _ _ _ OW _ _ _ _ _ _ OB EC).
 Qed.
